@@ -13,7 +13,11 @@ EXPLANATION = (
     "label linter, with procedure-local targets; (R4) dataflow over the emitted templates with "
     "per-instruction stack effects derived from interpret_one: every emitter's net effect on the "
     "value/register/context stacks is single-valued and zero for statement-level emitters, never "
-    "negative, and a jump and its label see the same depth; (R5) statement marks after user blocks.")
+    "negative, and a jump and its label see the same depth; (R5) statement marks after user blocks; "
+    "(R6) every VM container is used at the end its role prescribes; (R7) label names are built from one "
+    "delimited template; (R8) register liveness: a register read by an emitted instruction is not "
+    "overwritten by user code emitted since the template set it; (R9) the error edges of the "
+    "fetch-execute loop leave the context stack as the failing statement found it (shared with C05.R6).")
 NOT_DECIDED = [
     "well-formedness of the instruction list for one given program (that is a run of the generator)",
     "labels whose name is computed at generation time (else-if-N, caseN): depths at those sites "
@@ -317,6 +321,182 @@ def _ca_str(ca):
     return "[" + ",".join("_" if c is None else str(c) for c in ca) + "]"
 
 
+def register_effects(prog):
+    """{Instruction variant: (registers read, registers written)} derived from the VM: the
+    Registers methods (field reads / writes of a, b, c, d) reachable from each arm of interpret_one."""
+    ms = [f for f in prog.methods_of("Registers") if f.kind != "closure"]
+    if len(ms) < 8:
+        raise CheckError("Registers methods not found")
+    eff = {}
+    for f in ms:
+        w = common.field_writes(f.body) & set("abcd")
+        r = {k for k in "abcd"
+             if any(kind in ("read", "ref", "arg") for _b, kind in common.places_mentioning_field(f.body, k))}
+        eff[f.id] = (r, w)
+    one = prog.method("Interpreter", "interpret_one")
+    _sw, regions = c05._arm_regions(prog, one, "::Instruction")
+    table = {}
+    for v, region in regions.items():
+        callees = {mir.callee_of(t) for _b, t in mir.region_calls(one.body, region)}
+        roots = [prog.fns[c] for c in callees if c in prog.fns and prog.fns[c].crate == "rusty_basic"]
+        reach = prog.reachable_from(roots) if roots else set()
+        rd, wr = set(), set()
+        for fid in reach | callees:
+            if fid in eff:
+                rd |= eff[fid][0]
+                wr |= eff[fid][1]
+        table[v] = (rd, wr)
+    return table
+
+
+# expression evaluation uses A (result) and B (second operand of a binary operator)
+EXPR_CLOBBERS = {"a", "b"}
+ALL_REGS = {"a", "b", "c", "d"}
+
+
+def r8_register_liveness(ctx, rule="C15.R8"):
+    """A register that an emitted instruction reads (B of a comparison / arithmetic instruction, C
+    and D of the FOR template) must hold what the template put there: on no emission path may
+    user code that can overwrite the register be emitted between the instruction that sets it and
+    the instruction that reads it.  Expression code overwrites A and B; statement blocks overwrite
+    everything unless bracketed by PushRegisters / PopRegisters.  The register reads and writes of
+    each instruction are derived from the VM."""
+    prog = ctx.prog
+    table = register_effects(prog)
+    readers_b = {v for v, (r, _w) in table.items() if "b" in r}
+    if len(readers_b) < 10 or "CopyAToB" not in table:
+        raise CheckError("%s: register effects not derived (%d readers of B)" % (rule, len(readers_b)))
+    T = templates.Templates(prog)
+    import json
+    import os
+    from ..core import VERIF
+    exc = json.load(open(os.path.join(VERIF, "tables", "register_clobber_exceptions.json")))["a_only_generators"]
+    gens = {f.id: f for f in emit.generator_fns(prog)}
+    summaries = {}
+
+    def transfer(e, depth_holder):
+        """(reads, {reg: status}) of one event; status 'set' / 'clobbered'"""
+        if e.kind == "push" and e.instr in table:
+            rd, wr = table[e.instr]
+            return rd - {"a"}, {r: "set" for r in wr}
+        if e.kind == "EXPR":
+            cl = EXPR_CLOBBERS if e.callee.name not in exc else {"a"}
+            return set(), {r: "clobbered" for r in cl}
+        if e.kind in ("BLOCK", "STMT"):
+            return set(), ({} if depth_holder[0] > 0 else {r: "clobbered" for r in ALL_REGS})
+        if e.kind == "gen":
+            return set(), dict(summary(e.callee))
+        return set(), {}
+
+    def flow(f, on_read=None):
+        """may-dataflow over the emitted code of one emission path: fall-through and jumps to the
+        labels of the same path.  Returns the merged exit state {reg: set of statuses}."""
+        exit_state = {}
+        for seq in emit.linear_paths(f.body, T.evs(f)):
+            seq = [e for e in seq if e.kind != "mark"]
+            labels_at = {}
+            for i, e in enumerate(seq):
+                if e.kind == "label" and e.name is not None:
+                    labels_at.setdefault(e.name, i)
+            # PushRegisters / PopRegisters nesting is lexical in the templates (C02.R3)
+            depth = []
+            d = 0
+            for e in seq:
+                if e.kind == "push" and e.instr == "PushRegisters":
+                    d += 1
+                depth.append(d)
+                if e.kind == "push" and e.instr == "PopRegisters":
+                    d -= 1
+            n_ev = len(seq)
+            states = [None] * (n_ev + 1)
+            states[0] = {}
+            work = [0]
+            while work:
+                i = work.pop()
+                if i >= n_ev:
+                    continue
+                st = states[i]
+                e = seq[i]
+                reads, effect = transfer(e, [depth[i]])
+                if on_read is not None:
+                    for r in sorted(reads):
+                        if "clobbered" in st.get(r, ()):
+                            on_read(e, r, st[r + "#by"])
+                new = {k: set(v) if not k.endswith("#by") else v for k, v in st.items()}
+                for r, status in effect.items():
+                    new[r] = {status}
+                    new[r + "#by"] = (e.show(), e.line)
+                succs = []
+                if e.kind in ("jump", "jump_if_false") and e.name in labels_at:
+                    succs.append(labels_at[e.name])
+                if e.kind != "jump":
+                    succs.append(i + 1)
+                for j in succs:
+                    old = states[j]
+                    if old is None:
+                        states[j] = new
+                        work.append(j)
+                    else:
+                        merged = dict(old)
+                        changed = False
+                        for k, v in new.items():
+                            if k.endswith("#by"):
+                                if k not in merged:
+                                    merged[k] = v
+                                continue
+                            u = set(merged.get(k, set())) | v
+                            if u != merged.get(k):
+                                merged[k] = u
+                                changed = True
+                                if "clobbered" in v:
+                                    merged[k + "#by"] = new.get(k + "#by")
+                        if changed:
+                            states[j] = merged
+                            work.append(j)
+            end = states[n_ev] or {}
+            for k, v in end.items():
+                if not k.endswith("#by"):
+                    exit_state.setdefault(k, set()).update(v)
+        return exit_state
+
+    def summary(f, _seen=[]):
+        if f.id in summaries:
+            return summaries[f.id]
+        if f.name in exc:
+            summaries[f.id] = {"a": "set"}
+            return summaries[f.id]
+        if f.id in _seen:
+            return {}
+        _seen.append(f.id)
+        try:
+            ex = flow(f)
+        finally:
+            _seen.pop()
+        out = {r: ("clobbered" if "clobbered" in v else "set") for r, v in ex.items()}
+        summaries[f.id] = out
+        return out
+
+    n = 0
+    for f in sorted(gens.values(), key=lambda x: x.id):
+        evs = T.evs(f)
+        if not any(e.kind == "push" and (table.get(e.instr, (set(), set()))[0] - {"a"}) for e in evs.values()):
+            continue
+        bad = []
+
+        def on_read(e, r, by):
+            bad.append("%s (line %s) can read register %s after %s (line %s) overwrote it" % (
+                e.instr, e.line, r.upper(), by[0], by[1]))
+        flow(f, on_read)
+        n += 1
+        ctx.decide(not bad, rule, "%s:%s" % (rule, f.name), f.loc,
+                   "every register read follows its own definition",
+                   "%s: %s - the instruction compares / combines with whatever the intervening code left in the "
+                   "register (e.g. `FOR i = 1 TO 5 STEP s * 2` tested the step against the operand of `*`)"
+                   % (f.name, bad[0] if bad else ""))
+    ctx.analysed_units(rule, templates=n, readers_of_b=sorted(readers_b))
+    ctx.require(rule, 3)
+
+
 def run(ctx):
     common.install(ctx)
     r1_single_emission(ctx)
@@ -327,3 +507,5 @@ def run(ctx):
     common.r_stack_discipline(ctx, "C15.R6")
     from . import c02
     c02.r5_label_names_injective(ctx, "C15.R7")
+    r8_register_liveness(ctx)
+    c05.r6_error_unwinding(ctx, "C15.R9")
